@@ -142,8 +142,19 @@ def scanNumberLoop : NumSt → Bool → Nat → Bytes → Option NumSt
       else if !isNumeric b then none
       else scanNumberLoop st false b rest
 
+/-- the errors `scanNumber` can return -/
+inductive NumErr
+  | invalidNumber | intParse (tok : Bytes) (range : Bool) | uintParse (tok : Bytes) (range : Bool) | invalidFloat
+deriving DecidableEq, Repr
+
+def NumErr.toErr : NumErr → Err
+  | .invalidNumber => .invalidNumber
+  | .intParse t r => .intParse t r
+  | .uintParse t r => .uintParse t r
+  | .invalidFloat => .invalidFloat
+
 /-- `scanNumber(buf, start)` where `tok` = buf[start : next ',' or ' ' or end] (non-empty) -/
-def checkNumber (tok : Bytes) : Except Err Unit :=
+def checkNumber (tok : Bytes) : Except NumErr Unit :=
   let neg := tok.head? = some 45
   let body := if neg then tok.drop 1 else tok
   -- "-" at the very end of the buffer and "-," both end as ErrInvalidNumber
@@ -419,7 +430,7 @@ def scanFieldsM : FMode → FSt → Bytes → Except Err (Bytes × Bytes)
   | .skip, s, [] => s.finish []          -- unreachable: skip is entered only when a byte follows
   | .num t, s, [] =>
     match checkNumber t.reverse with
-    | .error e => .error e
+    | .error e => .error e.toErr
     | .ok _ => s.finish []
   | .bool t, s, [] =>
     match checkBoolean t.reverse with
@@ -429,7 +440,7 @@ def scanFieldsM : FMode → FSt → Bytes → Except Err (Bytes × Bytes)
   | .num t, s, b :: rest =>
     if b = cComma ∨ b = cSpace then
       match checkNumber t.reverse with
-      | .error e => .error e
+      | .error e => .error e.toErr
       | .ok _ =>
         -- back in the main loop at the delimiter (not quoted here)
         if b = cComma then consOk b (scanFieldsM .normal ({ s with commas := s.commas + 1 }.push b) rest)
